@@ -498,6 +498,69 @@ def finish_reachable_rule(chk, prog):
     return n
 
 
+def ok_progress_rule(chk, prog):
+    """K1-okprogress: the refill loop of the decompressing stream calls process_data again and again while it answers
+    XFRM_STREAM_OK.  That terminates only if 'OK' means that the transfer loop ran until the input or the output room was
+    used up (or nothing more was possible).  An OK that is returned without having gone through that loop -- with input
+    available and nothing consumed -- is handed the same bytes again forever."""
+    from ..errflow import ret_sources
+    n = 0
+    for f in prog.slot_impls(("struct.xfrm_stream_t", "process_data")):
+        if isinstance(f, ExternFn) or f.decl:
+            continue
+        f.build()
+        chk.analysed(f)
+        webs = set()
+        for k in (2, 4):
+            par = f.params[k]
+            work = [par]
+            webs.add(id(par))
+            while work:
+                v = work.pop()
+                for u in f.uses.get(v, []):
+                    if u.op in ("phi", "sub", "zext", "sext", "trunc") and id(u) not in webs:
+                        webs.add(id(u))
+                        work.append(u)
+        # transfer loops: exit condition looks at the remaining input / output room
+        tloops = []
+        for (h, body) in f.loops:
+            for b in body:
+                t = b.term
+                if t.op == "br" and len(t.x["succ"]) == 2 and any(s_ not in body for s_ in t.x["succ"]):
+                    if any(id(x) in webs for x in backward_slice(t.ops[0], phi_control=True, limit=200)):
+                        tloops.append((h, body))
+        inst0 = "%s:%s" % (f.unit.src.split("/")[-1], f.name)
+        for (v, b) in ret_sources(f):
+            w = strip_casts(v)
+            if not (w.is_const and w.is_int and w.sval == 0):
+                continue
+            n += 1
+            inst = "%s:ok@%d" % (inst0, b.term.line or 0)
+            # reached only by leaving a transfer loop (loop exit or a break out of its body)
+            ok = any(any(p in body for p in _preds_closure(b, body)) for (h, body) in tloops)
+            after = any(f.dominates(h, b) for (h, body) in tloops)
+            if ok and after:
+                chk.ok("K1-okprogress", inst, b.term, "'OK' is answered only after the transfer loop has run")
+            else:
+                chk.violation("K1-okprogress", inst, b.term, "process_data can answer XFRM_STREAM_OK without having entered its transfer "
+                              "loop: with input left and nothing consumed, the caller's refill loop hands it the same bytes again and never ends")
+    return n
+
+
+def _preds_closure(b, body):
+    """predecessors of b, looking through empty forwarding blocks"""
+    out, stack, seen = [], list(b.preds), set()
+    while stack:
+        p = stack.pop()
+        if p in seen:
+            continue
+        seen.add(p)
+        out.append(p)
+        if p not in body and len(p.insts) <= 2:
+            stack.extend(p.preds)
+    return out
+
+
 def end_means_end_rule(chk, prog):
     """K1-end: a wrapper answers XFRM_STREAM_END only when the library said that the compressed stream (frame) is complete:
     the return of END is control dependent on the library call's own result.  Otherwise a stream whose tail is missing is
@@ -656,6 +719,8 @@ def run(chk):
     chk.floor("K1-truncated", 1)
     end_means_end_rule(chk, prog)
     chk.floor("K1-end", 4)
+    ok_progress_rule(chk, prog)
+    chk.floor("K1-okprogress", 4)
     finish_reachable_rule(chk, load_program("sqfs2tar"))
     chk.floor("K1-finish", 4)
     error_now_rule(chk, load_program("tar2sqfs"))
